@@ -127,6 +127,9 @@ func (vc *VC) call(st *State, v *ssa.Call, c *ssa.CallCommon) error {
 	if vc.inlineDepth > 0 {
 		return nil
 	}
+	// ghost call counter (ncalls(K) in contracts): calls written in the function under contract itself
+	nc := "N_" + sanitize(key)
+	st.heap[nc] = vc.define(nc, "Int", sx("+", vc.heapGet(st, nc, "Int"), "1"))
 	return vc.siteAsserts(st, "call", key, ord, "after", c.Args, resV)
 }
 
